@@ -535,19 +535,21 @@ REFINE = ['LazyRefinesEager', 'QueuesWellFormed', 'FlushIdempotent']
 
 def main(chk: Check) -> None:
     quick = chk.tier == 'quick'
-    chk.rule = ('A: every operation sequence of the bounded spaces exported by the TLC refinement run (wide: 5 argument '
-                'kinds, batches <= 2, all operations, 2 objects; deep: 4 kinds, batches <= 1, fewer operations; native: '
-                'library/-isystem kinds), each with a seeded choice of spelling and call form; B: seeded random histories of '
-                '2-40 operations on up to 4 objects over 36 concrete arguments. Non-trivial = an argument of a de-dupable '
-                'kind is mentioned at least twice in a history of >= 2 operations (distinct abstract histories).')
+    chk.rule = ('A: every operation sequence of the bounded spaces exported by the TLC refinement runs (wide: 5-6 argument '
+                'kinds, batches <= 2, all operations, 2 objects; mid: 4 kinds, batches <= 1, += / direct / insert / read / len / '
+                'copy / +; pend: only +=, read, copy but longer; native: libraries and -isystem of default directories with '
+                'to_native), each with a seeded choice of spelling and call form; B: seeded random histories of 2-40 '
+                f'operations on up to 4 objects over {len(big_alpha())} abstract arguments (x up to 7 spellings); C: compile '
+                'statements of generated C projects. Non-trivial = an argument of a de-dupable kind is mentioned at least '
+                'twice in a history of >= 2 operations (distinct abstract histories).')
     # 1. the eager rule book and its laws
-    if quick:
-        law_cfg = mc_cfg([1, 2, 3, 4, 5, 7], [1], 2, 1, 1, ['iadd'], True, LAWS, ' MaxList = 3\n')
-    else:
-        law_cfg = mc_cfg([1, 2, 3, 4, 5, 6, 7, 9, 10, 11], [1], 2, 1, 1, ['iadd'], True, LAWS, ' MaxList = 3\n')
-    res = run_tlc(SPECS / 'arglist', 'ArgList_MC', cfg_text=law_cfg, timeout=3000, allow_violation=False)
-    chk.add_tlc('ArgList_MC[laws]', res)
-    dbg(f'laws {res.distinct} states {res.wall:.1f}s')
+    law_cfgs = [mc_cfg([1, 2, 3, 4, 5, 7], [1], 2, 1, 1, ['iadd'], True, LAWS, ' MaxList = 3\n')]
+    if not quick:   # a second table around libraries, absolute paths and -isystem of default directories
+        law_cfgs.append(mc_cfg([3, 4, 5, 6, 9, 10, 11], [1], 2, 1, 1, ['iadd'], True, LAWS, ' MaxList = 3\n'))
+    for n, law_cfg in enumerate(law_cfgs):
+        res = run_tlc(SPECS / 'arglist', 'ArgList_MC', cfg_text=law_cfg, timeout=3000, allow_violation=False)
+        chk.add_tlc(f'ArgList_MC[laws#{n}]', res)
+        dbg(f'laws#{n} {res.distinct} states {res.wall:.1f}s')
 
     # 2. refinement lazy => eager on the spaces that are then replayed on the implementation
     mid = ['iadd', 'xdirect', 'insert', 'read', 'len', 'copy', 'add']
